@@ -36,11 +36,20 @@ Definition q_ts (p : profile) (e : endian) (file : bytes) (tl : res (list bytes)
   rbind (lookups_at p (snd u) (map (fun d => val e (sub d 24 8)) ths)) (fun found =>
   Ok (fst u :: map (fun x => stack_source (thread_stack_ok e file (fst x)) (snd x)) (combine ths found))))).
 
-(* field tag 38 TS *)
+(* MinidumpThreadInfoList::get_thread_info: the same last-insert-wins id map over the [n] 64-byte entries that start at size_of_header *)
+Definition threadinfo_entries (e : endian) (s : bytes) (n : Z) : list bytes :=
+  let hdr := val e (sub s 0 4) in map (fun i => sub s (hdr + FSZ_THREADINFO * i) FSZ_THREADINFO) (nat_range n).
+Definition q_tig (e : endian) (s : res bytes) (ti : res Z) : res (list Z) :=
+  rbind ti (fun n => rbind s (fun b =>
+    let raws := threadinfo_entries e b n in
+    seq_res (map (fun d => get_thread_index e raws (val e (sub d 0 4))) (firstn 8 raws)))).
+
+(* field tags 38 TS, 39 TIG *)
 Definition run_stacks (p : profile) (file : bytes) : list (Z * field) :=
   match read_header file with
   | Ok (e, ds) =>
       [(38, fld (fun l => l) (q_ts p e file (snd (s_tl p e file ds))
-                                   (unified_memory e (s_raw file ds ST_MEMORY64_LIST) (snd (s_m64 p e file ds)) (snd (s_mem p e file ds)))))]
+                                   (unified_memory e (s_raw file ds ST_MEMORY64_LIST) (snd (s_m64 p e file ds)) (snd (s_mem p e file ds)))));
+       (39, fld (fun l => l) (q_tig e (s_raw file ds ST_THREAD_INFO) (snd (s_ti p e file ds))))]
   | _ => []
   end.
